@@ -87,6 +87,11 @@ def judge_lanes(name, rule, k, outty, spec, post=None):
                 res.append(R.ob(oid, rule, R.UNDECIDED, 'no normal form: %r' % e))
                 continue
             st, detail = L.compare_poly(got, exp)
+            nw = L.narrowing(t, outty.elem * 8) if outty.isfloat else None
+            if nw is not None:
+                res.append(R.ob(oid, rule, R.REFUTED, 'the %d-bit result passes through a %d-bit float (%s): it has float accuracy only, whatever the formula' % (outty.elem * 8, nw.w, tm.show(nw, 3)),
+                                where=R.where_of(it, nw), kernel=k.source()))
+                continue
             if st == R.UNDECIDED:
                 # differences that survive with only inv atoms whose argument is a lane polynomial are real
                 d = got - exp
